@@ -1101,8 +1101,14 @@ class Reaction(Object):
         Reaction
             Returns the same reaction modified in place.
         """
+        if coefficient == 0:
+            raise ValueError(
+                "A reaction cannot be scaled by zero (it would keep metabolites with "
+                "zero coefficients); remove the metabolites instead."
+            )
+        old_metabolites = self._metabolites
         self._metabolites = {
-            met: value * coefficient for met, value in self._metabolites.items()
+            met: value * coefficient for met, value in old_metabolites.items()
         }
 
         if coefficient < 0:
@@ -1113,8 +1119,10 @@ class Reaction(Object):
 
         context = get_context(self)
         if context:
+            # the stoichiometry itself is put back (scaling by the reciprocal is
+            # inexact); the bounds setter above has recorded its own undo
             context(partial(self._model._populate_solver, [self]))
-            context(partial(self.__imul__, 1.0 / coefficient))
+            context(partial(setattr, self, "_metabolites", old_metabolites))
 
         return self
 
